@@ -1288,9 +1288,8 @@ class Interp:
             new = self.binop(type(s.op), cur, v, inplace=True)
             if isinstance(cur, Arr):
                 self.inplace_sites.append(self.loc)
-                self.rebind(t, new, env)
-            else:
-                self.setattr(o, t.attr, new)
+            # python: o.attr = o.attr.__iop__(v)  -- the attribute is always re-assigned
+            self.setattr(o, t.attr, new)
         elif isinstance(t, ast.Subscript):
             base = self.ev(t.value, env)
             k = self.ev_index(t.slice, env)
@@ -1510,7 +1509,15 @@ def _dask_compute(self, v):
     if isinstance(v, tuple):
         return tuple(self.dask_compute(x) for x in v)
     if isinstance(v, SList):
-        return SList(v.length, lambda i: self.dask_compute(v.elem(i)), v.filt, v.base_len)
+        # the tasks of a symbolic list run *now* (before anything that depends on them):
+        # compute the generic element once and instantiate it per index
+        from .loops import subst_value
+        b = T.fresh("b")
+        bname = T.symname(b)
+        self.assumed.add(T.cmp_cond("<=", ZERO, b))
+        self.assumed.add(T.cmp_cond("<", b, v.length))
+        val = self.dask_compute(v.elem(b))
+        return SList(v.length, lambda i: subst_value(val, {bname: P(i)}), v.filt, v.base_len)
     if isinstance(v, Arr):
         return v
     return v
